@@ -104,7 +104,10 @@ int main(int argc, char **argv) {
     if (line.empty()) continue;
     auto f = split(line, ' ');
     cleanDir();
-    if (f[0] == "step") {
+    alarm(60);   // watchdog (SIGALRM kills the process; the runner reports `fault hang`)
+    if (f[0] == "step" || f[0] == "steps") {
+      size_t nsteps = 1;
+      if (f[0] == "steps") { nsteps = strtoull(f[1].c_str(), 0, 10); f.erase(f.begin() + 1); }
       uint32_t pc = strtoul(f[1].c_str(), 0, 16), a = strtoul(f[2].c_str(), 0, 16),
                b = strtoul(f[3].c_str(), 0, 16), o = strtoul(f[4].c_str(), 0, 16);
       bool trunc = f[5] == "1";
@@ -125,7 +128,7 @@ int main(int argc, char **argv) {
       A::pc(*p) = pc; A::areg(*p) = a; A::breg(*p) = b; A::oreg(*p) = o;
       A::exitCode(*p) = 0;
       p->setTruncateInputs(trunc);
-      A::cycles(*p) = 1; A::maxCycles(*p) = 1;   // exactly one loop iteration
+      A::cycles(*p) = 1; A::maxCycles(*p) = nsteps;   // exactly nsteps loop iterations (or until exit)
       std::string res;
       try {
         p->run();
